@@ -33,6 +33,7 @@ type vfC19Sys struct {
 	w       *vfc19.World
 	srv     map[string]*ServerPeerIDAuth
 	clients []*vfC19Cli
+	shared  *ClientPeerIDAuth // the one client (token cache) whose exchanges the behaviour's sessions are
 }
 
 func vfC19NewSys(w *vfc19.World) *vfC19Sys {
@@ -88,6 +89,7 @@ type vfC19Result struct {
 
 type vfC19Cli struct {
 	s      *vfC19Sys
+	auth   *ClientPeerIDAuth
 	host   string
 	reqCh  chan string
 	respCh chan *http.Response
@@ -112,8 +114,19 @@ func (c *vfC19Cli) RoundTrip(r *http.Request) (*http.Response, error) {
 	return resp, nil
 }
 
+// NewSession: an exchange of the behaviour's shared client.
+func (s *vfC19Sys) NewSession(host string) vfc19.Client {
+	if s.shared == nil {
+		s.shared = &ClientPeerIDAuth{PrivKey: s.w.Keys.Priv["kC"], TokenTTL: s.w.TokenTTL}
+	}
+	c := s.NewClient(host).(*vfC19Cli)
+	c.auth = s.shared
+	return c
+}
+
+// NewClient: an exchange of a client of its own (honest signatures on demand, simulated stale token).
 func (s *vfC19Sys) NewClient(host string) vfc19.Client {
-	c := &vfC19Cli{s: s, host: host, reqCh: make(chan string), respCh: make(chan *http.Response), doneCh: make(chan vfC19Result, 1)}
+	c := &vfC19Cli{s: s, host: host, auth: &ClientPeerIDAuth{PrivKey: s.w.Keys.Priv["kC"], TokenTTL: s.w.TokenTTL}, reqCh: make(chan string), respCh: make(chan *http.Response), doneCh: make(chan vfC19Result, 1)}
 	s.clients = append(s.clients, c)
 	return c
 }
@@ -122,16 +135,17 @@ func (c *vfC19Cli) Coarse() bool        { return true }
 func (c *vfC19Cli) Clone() vfc19.Client { return nil }
 func (c *vfC19Cli) State() string       { return "" }
 
-func (c *vfC19Cli) Start(initiate bool) (string, error) {
-	a := &ClientPeerIDAuth{PrivKey: c.s.w.Keys.Priv["kC"], TokenTTL: c.s.w.TokenTTL}
-	if !initiate {
+func (c *vfC19Cli) Start(mode string) (string, error) {
+	a := c.auth
+	if mode == "si" {
 		// the client holds a token for this hostname; the server will refuse it (401) and challenge
 		a.tm.set(c.host, tokenInfo{token: handshake.PeerIDAuthScheme + ` bearer="c3RhbGUtdG9rZW4="`, insertedAt: time.Now(), peerID: c.s.w.Keys.ID["kS"]})
 	}
-	req, err := http.NewRequest("POST", "https://"+c.host+"/", bytes.NewReader([]byte("body")))
+	req, err := http.NewRequest("POST", "https://placeholder.invalid/", bytes.NewReader([]byte("body")))
 	if err != nil {
 		return "", err
 	}
+	req.Host = c.host
 	go func() {
 		p, resp, err := a.AuthenticateWithRoundTripper(c, req)
 		if resp != nil && resp.Body != nil {
@@ -141,10 +155,10 @@ func (c *vfC19Cli) Start(initiate bool) (string, error) {
 	}()
 	select {
 	case az := <-c.reqCh:
-		if !initiate {
+		if mode == "si" {
 			return "", nil // the stale token went out; the next delivery is the server's 401
 		}
-		return az, nil
+		return az, nil // a client-initiated request, or the cached token
 	case r := <-c.doneCh:
 		c.over = true
 		return "", fmt.Errorf("client finished before sending anything: %v", r.err)
@@ -158,11 +172,14 @@ func (c *vfC19Cli) Deliver(kind, val string) vfc19.ClientObs {
 		return o
 	}
 	resp := &http.Response{StatusCode: 401, Header: http.Header{}, Body: http.NoBody, Proto: "HTTP/1.1", ProtoMajor: 1, ProtoMinor: 1}
-	if kind == "www" {
+	switch {
+	case kind == "www":
 		resp.Header.Set("WWW-Authenticate", val)
-	} else {
+	case kind == "info":
 		resp.StatusCode = 200
 		resp.Header.Set("Authentication-Info", val)
+	default: // "status:NNN": an answer without authentication
+		fmt.Sscanf(kind, "status:%d", &resp.StatusCode)
 	}
 	c.respCh <- resp
 	for {
@@ -170,6 +187,7 @@ func (c *vfC19Cli) Deliver(kind, val string) vfc19.ClientObs {
 		case az := <-c.reqCh:
 			if p := vfc19.ParseParams(az); p["bearer"] != "" && p["sig"] == "" && p["opaque"] == "" {
 				// the handshake is over for the client; this is the application request with the token
+				o.Bearers = append(o.Bearers, p["bearer"])
 				c.respCh <- &http.Response{StatusCode: 200, Header: http.Header{}, Body: http.NoBody}
 				continue
 			}
@@ -225,10 +243,13 @@ func TestVerifC19Handler(t *testing.T) {
 		if err := vfc19.Replay(mk, res, vfc19.Options{Lite: true, Profile: os.Getenv("VERIF_C19_KEYS"), MaxWalks: vfh.EnvInt("VERIF_C19_MAXWALKS", 0)}); err != nil {
 			t.Fatal(err)
 		}
-		if err := vfc19.SecretMatrix(mk, res, os.Getenv("VERIF_C19_KEYS")); err != nil {
-			t.Fatal(err)
+		for _, m := range []func(func(*vfc19.World) vfc19.System, *vfh.Result, string) error{vfc19.SecretMatrix, vfc19.TimeMatrix, vfc19.ServerHostMatrix} {
+			if err := m(mk, res, os.Getenv("VERIF_C19_KEYS")); err != nil {
+				t.Fatal(err)
+			}
 		}
 		vfC19HostnameRules(t, res)
+		vfC19ClientHostMatrix(t, res)
 	})
 }
 
@@ -319,4 +340,156 @@ func vfC19HostnameRules(t *testing.T, res *vfh.Result) {
 		}
 	}
 	res.Inc("hostname_rule_cases", n)
+}
+
+// ---- one client, two hostnames that a careless normalisation would merge
+
+type vfC19RT func(*http.Request) (*http.Response, error)
+
+func (f vfC19RT) RoundTrip(r *http.Request) (*http.Response, error) { return f(r) }
+
+type vfC19Exchange struct {
+	host, authz string
+	status      int
+	www, info   string
+}
+
+// vfC19ClientHostMatrix: one ClientPeerIDAuth completes a handshake with honest server A at hA and then
+// makes a request to hB, where another party answers.  L1: the client reports X for hB only if X's key
+// signed this exchange's challenge, the client's key and hB; it never sends the token it got for hA to hB.
+func vfC19ClientHostMatrix(t *testing.T, res *vfh.Result) {
+	keys, err := vfc19.LoadKeys("ed25519", vfh.Seed())
+	if err != nil {
+		t.Fatal(err)
+	}
+	all := func(string) bool { return true }
+	serve := func(a *ServerPeerIDAuth, host string, r *http.Request, log *[]vfC19Exchange) *http.Response {
+		if r.Body != nil {
+			io.Copy(io.Discard, r.Body)
+			r.Body.Close()
+		}
+		rec := httptest.NewRecorder()
+		a.ServeHTTPWithNextHandler(rec, vfC19Request(host, r.Header.Get("Authorization"), nil), func(_ peer.ID, w http.ResponseWriter, _ *http.Request) {
+			w.WriteHeader(http.StatusOK)
+		})
+		resp := rec.Result()
+		resp.Request = r
+		*log = append(*log, vfC19Exchange{r.Host, r.Header.Get("Authorization"), resp.StatusCode, resp.Header.Get("WWW-Authenticate"), resp.Header.Get("Authentication-Info")})
+		return resp
+	}
+	plain := func(r *http.Request, status int, log *[]vfC19Exchange) *http.Response {
+		if r.Body != nil {
+			io.Copy(io.Discard, r.Body)
+			r.Body.Close()
+		}
+		*log = append(*log, vfC19Exchange{host: r.Host, authz: r.Header.Get("Authorization"), status: status})
+		return &http.Response{StatusCode: status, Header: http.Header{}, Body: http.NoBody, Request: r, Proto: "HTTP/1.1", ProtoMajor: 1, ProtoMinor: 1}
+	}
+	newReq := func(host string) *http.Request {
+		req, _ := http.NewRequest("POST", "https://placeholder.invalid/", bytes.NewReader([]byte("body")))
+		req.Host = host
+		return req
+	}
+	kinds := []string{"honest-B", "status-200", "status-204", "status-403", "status-500", "status-401-bare", "replay-A", "replay-A-200", "relay-to-A-as-hA", "relay-to-A-as-hB"}
+	n := 0
+	for _, hp := range vfc19.HostFamily() {
+		for dir := 0; dir < 2; dir++ {
+			hA, hB := hp.A, hp.B
+			if dir == 1 {
+				hA, hB = hB, hA
+			}
+			for _, kind := range kinds {
+				srvA := &ServerPeerIDAuth{PrivKey: keys.Priv["kS"], TokenTTL: time.Hour, HmacKey: []byte("client-host-matrix-A"), NoTLS: true, ValidHostnameFn: all}
+				srvB := &ServerPeerIDAuth{PrivKey: keys.Priv["kS2"], TokenTTL: time.Hour, HmacKey: []byte("client-host-matrix-B"), NoTLS: true, ValidHostnameFn: all}
+				cl := &ClientPeerIDAuth{PrivKey: keys.Priv["kC"], TokenTTL: time.Hour}
+				var logA, logB []vfC19Exchange
+				idA, resp, err := cl.AuthenticateWithRoundTripper(vfC19RT(func(r *http.Request) (*http.Response, error) { return serve(srvA, r.Host, r, &logA), nil }), newReq(hA))
+				if resp != nil {
+					resp.Body.Close()
+				}
+				desc := fmt.Sprintf("pair %s: handshake with A at %q, then request to %q answered by %s", hp.Name, hA, hB, kind)
+				if err != nil || idA != keys.ID["kS"] {
+					res.AddMismatch(vfh.Mismatch{Class: "L2:client-host-matrix-setup", Walk: -1, What: fmt.Sprintf("%s: the honest handshake failed: %v", desc, err)})
+					continue
+				}
+				tokenA := ""
+				for _, e := range logA {
+					if b := vfc19.ParseParams(e.info)["bearer"]; b != "" {
+						tokenA = b
+					}
+				}
+				if cl.HasToken(hB) {
+					res.AddMismatch(vfh.Mismatch{Class: "L2:client-claims-token-for-other-hostname", Walk: -1, What: desc + ": HasToken(hB) is true before any exchange with hB"})
+				}
+				replay := 0
+				rt := vfC19RT(func(r *http.Request) (*http.Response, error) {
+					switch kind {
+					case "honest-B":
+						return serve(srvB, r.Host, r, &logB), nil
+					case "relay-to-A-as-hA":
+						return serve(srvA, hA, r, &logB), nil
+					case "relay-to-A-as-hB":
+						return serve(srvA, hB, r, &logB), nil
+					case "replay-A", "replay-A-200":
+						resp := plain(r, 200, &logB)
+						if replay < len(logA) {
+							e := logA[replay]
+							replay++
+							if kind == "replay-A" {
+								resp.StatusCode = e.status
+							}
+							if e.www != "" {
+								resp.Header.Set("WWW-Authenticate", e.www)
+							}
+							if e.info != "" {
+								resp.Header.Set("Authentication-Info", e.info)
+							}
+						}
+						return resp, nil
+					case "status-401-bare":
+						return plain(r, 401, &logB), nil
+					}
+					var st int
+					fmt.Sscanf(kind, "status-%d", &st)
+					return plain(r, st, &logB), nil
+				})
+				idB, resp2, err2 := cl.AuthenticateWithRoundTripper(rt, newReq(hB))
+				if resp2 != nil && resp2.Body != nil {
+					resp2.Body.Close()
+				}
+				n++
+				res.Case("clienthost|" + hp.Name + "|" + kind)
+				for _, e := range logB {
+					if tokenA != "" && vfc19.ParseParams(e.authz)["bearer"] == tokenA {
+						res.AddMismatch(vfh.Mismatch{Class: "client-sends-token-to-other-hostname", Walk: -1, What: desc + ": the bearer token obtained for hA is sent in the request to hB",
+							Expected: "no token", Got: e.authz})
+						break
+					}
+				}
+				if err2 != nil {
+					if kind == "honest-B" || kind == "relay-to-A-as-hB" {
+						res.AddMismatch(vfh.Mismatch{Class: "L2:client-host-matrix-honest-refused", Walk: -1, What: desc + ": " + err2.Error()})
+					}
+					continue
+				}
+				want := peer.ID("")
+				switch kind {
+				case "honest-B":
+					want = keys.ID["kS2"]
+				case "relay-to-A-as-hB":
+					want = keys.ID["kS"] // A really answers for hB and signs for it
+				}
+				if idB != want {
+					cls := "client-reports-unproven-server"
+					if idB == keys.ID["kS"] {
+						cls = "client-reports-server-cached-for-other-hostname"
+					}
+					res.AddMismatch(vfh.Mismatch{Class: cls, Walk: -1, What: fmt.Sprintf("%s: the client reports %s for hB although no signature under that key over this exchange's challenge, the client key and %q was verified",
+						desc, idB, hB), Expected: want.String(), Got: idB.String()})
+				}
+			}
+		}
+	}
+	res.Inc("client_host_matrix_cases", n)
+	res.Set("client_host_matrix_responders", kinds)
 }
